@@ -112,6 +112,69 @@ def arGenerator (sigma : K) (coefs : List K) (drop : Nat) (v : List K) : List K 
   let u := lfilter1 (sqrtRe sigma) (one :: coefs.map neg) v
   (u.drop drop, v.drop drop)
 
+/-! ### Toeplitz form / Gram form (the stability clause)
+
+`toepForm r p c = cᴴ·T·c` for `T = toeplitz(r[:p+1])` (the matrix `AR_est_YW` builds, one size up);
+`gramForm x n p c = (1/n)·Σ_{t<n+p} |Σ_{i≤p} c_i·x[t−i]|²` with `x` zero outside `0..n−1`.
+`Props/C10.lean` proves `toepForm (autocorrDirect x n) p c = gramForm x n p c` for every input
+(`autocorr_toeplitz_psd`), hence positive definiteness, `σ_j > 0`, `|κ_j| < 1` and stability of
+every `AR_est_LD` fit of a non-zero signal.  The driver evaluates both sides (ops `gram`, `gramq`,
+`ldq`), the `q` ops in exact rational arithmetic (`CQ`). -/
+
+/-- `cᴴ·T·c = Σ_{k,i ≤ p} c_i·conj(c_k)·T[k,i]` -/
+def toepForm (r : Nat → K) (p : Nat) (c : Nat → K) : K :=
+  sumRange (p + 1) fun k => sumRange (p + 1) fun i => c i *. conj (c k) *. toepEntry r k i
+
+/-- zero-extended shifted sample `x[t−i]` -/
+def shiftSig (x : Nat → K) (n t i : Nat) : K := if i ≤ t ∧ t - i < n then x (t - i) else zero
+
+/-- output sample `t` of the FIR filter `c` on the zero-extended signal -/
+def filtOut (x : Nat → K) (n p : Nat) (c : Nat → K) (t : Nat) : K :=
+  sumRange (p + 1) fun i => c i *. shiftSig x n t i
+
+/-- `(1/n)·Σ_{t<n+p} |Σ_{i≤p} c_i·x[t−i]|²` -/
+def gramForm (x : Nat → K) (n p : Nat) (c : Nat → K) : K :=
+  sumRange (n + p) (fun t => re (filtOut x n p c t *. conj (filtOut x n p c t))) /. ofNat n
+
+/-- the prediction-error filter `[1, −a_1, …, −a_p]` of a returned coefficient list -/
+def predErrFilter (ak : List K) : Nat → K :=
+  fun i => if i = 0 then one else neg (ak.getD (i - 1) zero)
+
+/-- left side of Yule–Walker equation `k` (1-based): `Σ_{i<p} T[k−1,i]·a_i` -/
+def ywLhs (r : Nat → K) (p : Nat) (ak : List K) (k : Nat) : K :=
+  sumRange p fun i => toepEntry r (k - 1) i *. ak.getD i zero
+
+/-! ### exact complex rationals (`ℚ(i)`): the field operations of `Scalar`, exactly
+
+`sqrtRe` and `phasor` are not rational operations; the ops that run at `CQ` (`gramq`, `ldq`) never
+call them (placeholders `0` / `1`).  Division by zero is `0`, as in Mathlib's `ℂ`. -/
+structure CQ where
+  re : Rat
+  im : Rat
+deriving Inhabited
+
+namespace CQ
+def normSq (a : CQ) : Rat := a.re * a.re + a.im * a.im
+end CQ
+
+instance : Scalar CQ where
+  add := fun a b => ⟨a.re + b.re, a.im + b.im⟩
+  mul := fun a b => ⟨a.re * b.re - a.im * b.im, a.re * b.im + a.im * b.re⟩
+  sub := fun a b => ⟨a.re - b.re, a.im - b.im⟩
+  div := fun a b =>
+    let d := CQ.normSq b
+    ⟨(a.re * b.re + a.im * b.im) / d, (a.im * b.re - a.re * b.im) / d⟩
+  neg := fun a => ⟨-a.re, -a.im⟩
+  conj := fun a => ⟨a.re, -a.im⟩
+  re := fun z => ⟨z.re, 0⟩
+  zero := ⟨0, 0⟩
+  one := ⟨1, 0⟩
+  ofNat := fun n => ⟨(n : Rat), 0⟩
+  sqrtRe := fun _ => ⟨0, 0⟩
+  absGt := fun a b => CQ.normSq a > CQ.normSq b
+  beq := fun a b => a.re == b.re && a.im == b.im
+  phasor := fun _ _ _ => ⟨1, 0⟩
+
 /-! ### line protocol -/
 
 def fnOf (l : List CF) : Nat → CF := fun i => l.getD i ⟨0.0, 0.0⟩
@@ -126,8 +189,64 @@ def acLags (x : List CF) (order : Nat) : List CF :=
   let f : Nat → CF := fun i => a.getD i ⟨0.0, 0.0⟩
   (List.range (order + 1)).map fun k => autocorrDirect f x.length k
 
+/-- complex rationals from interleaved integers (re, im, re, im, …) over a common denominator -/
+def pairUpQ (den : Nat) : List Int → Option (List CQ)
+  | [] => some []
+  | a :: b :: rest => (pairUpQ den rest).map fun t => ⟨(a : Rat) / (den : Rat), (b : Rat) / (den : Rat)⟩ :: t
+  | [_] => none
+
+def parseCQList? (den : Nat) (s : String) : Option (List CQ) := (parseIntList? s).bind (pairUpQ den)
+
+def showCQList (zs : List CQ) : String :=
+  joinList (zs.foldr (fun z acc => showRat z.re :: showRat z.im :: acc) [])
+
+def fnOfK (l : List K) : Nat → K :=
+  let a := l.toArray
+  fun i => a.getD i zero
+
+/-- both sides of the Gram identity (`autocorr_toeplitz_psd`) for a signal, an order and a filter:
+`(cᴴ·toeplitz(autocorr(x)[:p+1])·c, (1/N)·Σ_t |Σ_i c_i x[t−i]|²)` -/
+def gramBoth (x : List K) (p : Nat) (c : List K) : K × K :=
+  let xf := fnOfK x
+  let cf := fnOfK c
+  (toepForm (fun k => autocorrDirect xf x.length k) p cf, gramForm xf x.length p cf)
+
+/-- `AR_est_LD(x, o)` in exact arithmetic, with the exact truth value of every link of the proved
+chain: divisors real and positive (`DivisorsOK`, `ld_sigma_pos_of_toeplitz_pd`), `|κ_j|² < 1`,
+`σ > 0` real, Yule–Walker residual exactly zero (`arLD_solves_YW`), `σ = R(0) − Σ a_k conj R(k)`
+(`arLD_sigma`) and `σ = cᴴ·T·c` at the prediction-error filter (`arLD_sigma_is_form`) -/
+def ldqReport (x : List CQ) (o : Nat) : String :=
+  let xf := fnOfK x
+  let lags := (List.range (o + 1)).map fun k => autocorrDirect xf x.length k
+  let r := fnOfK lags
+  let est := arLD r o
+  let divOK := (List.range o).all fun j => let b := (ldLoop r (j + 1)).b; b.im == 0 && b.re > 0
+  let kapOK := (List.range o).all fun j => CQ.normSq (ldLoop r (j + 1)).wk < 1
+  let sigPos := est.2.im == 0 && est.2.re > 0
+  let ywOK := (List.range o).all fun k => Scalar.beq (ywLhs r o est.1 (k + 1)) (r (k + 1))
+  let errOK := Scalar.beq est.2 (r 0 -. sumRange o fun k => est.1.getD k zero *. conj (r (k + 1)))
+  let formOK := Scalar.beq est.2 (toepForm r o (predErrFilter est.1))
+  s!"ok {showCQList est.1} {showCQList [est.2]} {showBoolList [divOK, kapOK, sigPos, ywOK, errOK, formOK]}"
+
 def handle (args : List String) : String :=
   match args with
+  | ["gram", p, xs, cs] => match p.toNat?, parseCList? xs, parseCList? cs with
+    | some p, some x, some c =>
+      let r := gramBoth x p c
+      "ok " ++ showCList [r.1, r.2]
+    | _, _, _ => "bad-op"
+  | ["gramq", p, den, xs, cs] => match p.toNat?, den.toNat? with
+    | some p, some den => match parseCQList? den xs, parseCQList? den cs with
+      | some x, some c =>
+        let r := gramBoth x p c
+        "ok " ++ showCQList [r.1, r.2]
+      | _, _ => "bad-op"
+    | _, _ => "bad-op"
+  | ["ldq", o, den, xs] => match o.toNat?, den.toNat? with
+    | some o, some den => match parseCQList? den xs with
+      | some x => if o = 0 ∨ x.length < o + 1 then "err IndexError" else ldqReport x o
+      | none => "bad-op"
+    | _, _ => "bad-op"
   | ["autocorr", nl, xs] => match nl.toNat?, parseCList? xs with
     | some nl, some x => "ok " ++ showCList ((acLags x (nl - 1)).take nl)
     | _, _ => "bad-op"
